@@ -486,9 +486,11 @@ func (dp *DataProcessor) processAggregationResults(results []map[string]any) {
 	// Apply ORDER BY before LIMIT so LIMIT selects the top-N of the sorted order.
 	dp.stream.applyOrderBy(finalResults)
 
-	// Apply LIMIT restriction
-	if dp.stream.config.Limit > 0 && len(finalResults) > dp.stream.config.Limit {
-		finalResults = finalResults[:dp.stream.config.Limit]
+	// Apply LIMIT restriction; a written LIMIT 0 delivers no rows, while Limit == 0
+	// without a LIMIT clause means unlimited
+	limit := dp.stream.config.Limit
+	if (limit > 0 || (limit == 0 && dp.stream.config.HasLimit)) && len(finalResults) > limit {
+		finalResults = finalResults[:limit]
 	}
 
 	// Send results to result channel and Sink functions
